@@ -385,6 +385,13 @@ def c06_families():
     out.append(("O4-twin-operators", dict(twins=True), st["F9-twin-operators-2"]))
     out.append(("O5-twin-operators-3", dict(twins=True), st["F9-twin-operators-3-no-edge-on-one-twin"]))
     out.append(("O6-twin-operators-renamed-types", dict(twins=True), st["F9-twin-operators-renamed-types"]))
+    # larger single-type populations with one-to-one edges: permuted sources (first and last kept), and a 12-ring whose edges are
+    # DECLARED in a shuffled order that starts at unit 0 and ends at unit 11
+    out.append(("O7-perm-11", dict(population=11), st["F8-perm-11"]))
+    nodes_r = {f"n{i}": dict(ops=["opB"], over={"opB/tau": 1.0 + 0.25 * i}) for i in range(12)}
+    order = [0, 7, 3, 9, 1, 5, 10, 2, 8, 4, 6, 11]
+    es_r = [edge(f"n{(i - 1) % 12}/opB/v", f"n{i}/opB/u", 0.3 + 0.1 * i) for i in order]
+    out.append(("O8-ring-12-shuffled-edge-declaration", dict(population=12), model([b], nodes_r, es_r)))
     return out
 
 
